@@ -31,6 +31,31 @@ var pureExternal = map[string]bool{
 	"crypto/sha256.Sum256": true, "encoding/hex.EncodeToString": true,
 }
 
+// observers: accessors that only read, or that memoise a value they would otherwise recompute
+// (cached hashes, lazily wrapped transactions), and read-only interface getters. Calling one more
+// or one less of them (e.g. from a log statement) is not a change of behaviour; their results
+// still appear inside the operand terms of guards and effects wherever they are used.
+var observerCallees = map[string]bool{
+	"(*btcutil/v2.Tx).Hash": true, "(*btcutil/v2.Tx).WitnessHash": true, "(*btcutil/v2.Tx).HasWitness": true, "(*btcutil/v2.Tx).MsgTx": true, "(*btcutil/v2.Tx).Index": true,
+	"(*btcutil/v2.Block).Hash": true, "(*btcutil/v2.Block).Transactions": true, "(*btcutil/v2.Block).Tx": true, "(*btcutil/v2.Block).Bytes": true,
+	"(*btcutil/v2.Block).Height": true, "(*btcutil/v2.Block).MsgBlock": true, "(*btcutil/v2.Block).TxHash": true, "(*btcutil/v2.Block).BytesNoWitness": true,
+	"(database.Tx).Metadata": true, "(database.Bucket).Bucket": true, "(database.Bucket).Get": true, "(database.Bucket).Writable": true,
+	"(*bytes.Buffer).Bytes": true, "(*bytes.Buffer).Len": true, "(*bytes.Reader).Len": true,
+	"blockchain.CalcPastMedianTime": true, "(*blockchain.BlockChain).BestSnapshot": true,
+	"(github.com/decred/dcrd/dcrec/secp256k1/v4.PublicKey).SerializeCompressed": true, "(github.com/decred/dcrd/dcrec/secp256k1/v4.PublicKey).SerializeUncompressed": true,
+	"(*wire/v2.MsgTx).TxHash": true, "(*wire/v2.MsgTx).WitnessHash": true, "(*wire/v2.MsgBlock).BlockHash": true, "(*wire/v2.BlockHeader).BlockHash": true,
+	"(*wire/v2.MsgTx).SerializeSize": true, "(*wire/v2.MsgTx).SerializeSizeStripped": true, "(*wire/v2.MsgBlock).SerializeSize": true, "(*wire/v2.MsgBlock).SerializeSizeStripped": true,
+}
+
+func isObserver(short string) bool {
+	if observerCallees[short] {
+		return true
+	}
+	// read-only context interfaces of package blockchain
+	return strings.HasPrefix(short, "(blockchain.HeaderCtx).") || strings.HasPrefix(short, "(blockchain.ChainCtx).") ||
+		strings.HasPrefix(short, "(blockchain.thresholdConditionChecker).") && !strings.HasSuffix(short, ".Condition") && false
+}
+
 func isNoiseCallee(name string) bool {
 	return strings.HasPrefix(name, "(github.com/btcsuite/btclog.Logger).") || strings.HasPrefix(name, "(btclog.Logger).") ||
 		strings.HasPrefix(name, "(github.com/btcsuite/btclog") || strings.Contains(name, "go-spew/spew.") ||
